@@ -26,7 +26,30 @@ package scen
 //     time-out of whatever length can have run out). See choose / checkInflight;
 //   * the host's addresses change between provides (with and without the
 //     address-update event); every ADD_PROVIDER is compared with the filter
-//     applied to the addresses the host had while that provide ran.
+//     applied to the addresses the host had while that provide ran;
+//   * the caller's context is an input too. In a drawn share of the value
+//     searches and optimistic provides the caller does what `defer cancel()`
+//     does: it cancels its context on its own goroutine as soon as the call has
+//     returned (SearchValue: as soon as the result channel has been drained;
+//     the search is also run through GetValue). What an operation still owes
+//     when it returns - the corrective PUT_VALUEs are only started then, an
+//     optimistic provide returns with ADD_PROVIDERs in flight - is owed whatever
+//     the caller does with its context afterwards; a completed search stays
+//     completed. At the quiescent point right after the return, a request of
+//     the operation that was handed to the sender at this very virtual instant
+//     (no time-out of whatever length can have run out since) must not have a
+//     cancelled context - whether it was cancelled in flight or was already
+//     dead when it was handed over (see checkAtReturn):
+//       - cp-put-cancelled (frt-cp-put-cancelled on fullrt) encodes "AFTER a
+//         completed value search the peers among the closest that did not
+//         return the best value are sent it"; it is judged after every value
+//         search, whether the caller released its context or kept it: a
+//         corrective put that is cancelled the instant it is started is not
+//         sent;
+//       - ap-aborted-by-caller-release encodes "sends every peer returned by
+//         the lookup one ADD_PROVIDER ... with and without optimistic provide"
+//         and is judged only when the caller released its context (an
+//         operation may itself give up what it no longer waits for).
 
 import (
 	"bytes"
@@ -77,7 +100,8 @@ func init() {
 		"probe_addrs_changed_with_event", "probe_addrs_changed_silently", "probe_provide_after_addr_change",
 		"probe_provide_ok", "probe_all_addrs_filtered", "probe_filter_dropped_some", "probe_estimator_ready", "probe_optimistic_fallback_classic",
 		"probe_optimistic_early_put", "probe_optimistic_extra_recipient", "probe_optimistic_lookup_stopped", "probe_term_stopped", "probe_optimistic_inflight_at_return",
-		"probe_recipient_failed_others_served", "probe_recipient_hung_others_served")
+		"probe_recipient_failed_others_served", "probe_recipient_hung_others_served",
+		"probe_caller_released_ctx", "probe_at_return_requests_judged")
 	// the same with lookups that take minutes of virtual time: optimistic provide
 	// budgets all its ADD_PROVIDERs from before the lookup
 	reg("provide-optimistic-slow-lookup", 1, func(s *sim.Sim) { runC06Provide(s, true, true) },
@@ -85,7 +109,8 @@ func init() {
 	reg("corrective-put", 3, runC06Corrective,
 		"fault_recipient_bad_echo", "fault_invalid_record", "fault_wrong_key_record", "probe_search_completed", "probe_search_no_value", "probe_quorum_not_reached",
 		"probe_corrective_put_sent", "probe_corrective_none_needed", "probe_holder_of_best_in_R", "probe_local_value_in_search", "probe_best_changed",
-		"probe_recipient_failed_others_served", "probe_recipient_hung_others_served")
+		"probe_recipient_failed_others_served", "probe_recipient_hung_others_served",
+		"probe_caller_released_ctx", "probe_at_return_requests_judged", "probe_search_via_getvalue")
 }
 
 // ---------------------------------------------------------------------------
@@ -163,6 +188,13 @@ type c06World struct {
 	patience time.Duration
 	// lastFail: the PUT_VALUE / ADD_PROVIDER the step being executed failed
 	lastFail *simnet.RPC
+	// release: the caller of the next operation cancels its context on its own
+	// goroutine as soon as the call has returned (`defer cancel()`); otherwise
+	// the context stays live until endOp
+	release bool
+	// searchPfx: the next operation is a value search; rule-id prefix of its
+	// clauses ("cp", "frt-cp")
+	searchPfx string
 
 	// lookupDelay: a lookup request to this peer is answered no earlier than
 	// this long after it was sent (slow-lookup variant)
@@ -482,13 +514,17 @@ type c06OpObs struct {
 	finished  func() bool
 	ctx       context.Context // the caller's context
 	end       func()          // cancels the caller's contexts (endOp)
+	released  bool            // the caller cancelled ctx itself right after the call returned
+	searchPfx string          // non-empty: a value search (rule-id prefix of its clauses)
 }
 
 // endOp cancels the contexts of the operation started last. This happens when
 // the next operation starts or the scenario ends, not when the operation
 // returns: requests that are still in flight then (optimistic provide,
 // corrective puts) keep a caller whose context is live, so that a cancellation
-// they observe cannot be the harness's own doing.
+// they observe cannot be the harness's own doing. (Operations started with
+// w.release set are the exception: their caller cancels its own context the
+// moment the call returns, see runOp / checkAtReturn.)
 func (w *c06World) endOp() {
 	if w.cur != nil && w.cur.end != nil {
 		w.cur.end()
@@ -546,7 +582,10 @@ func (w *c06World) callerLive() bool {
 // operation did not return within this very step (an operation that returns
 // may give up what it no longer waits for; fullrt does). It applies equally
 // before the operation returned and afterwards (optimistic provide and
-// corrective puts leave requests in flight).
+// corrective puts leave requests in flight). A caller that released its context
+// when the operation returned (ob.released) does not switch the rule off for
+// the steps after the return: the release happened before the step, whatever it
+// cancelled was cancelled before the step and is not in `before`.
 func (w *c06World) choose(acts []sim.Action) {
 	s, u := w.s, w.h.U
 	before := map[string]bool{}
@@ -558,7 +597,7 @@ func (w *c06World) choose(acts []sim.Action) {
 	doneBefore := w.cur != nil && w.cur.op != nil && w.cur.op.Done
 	w.lastFail = nil
 	s.Choose("next", acts)
-	if f := w.lastFail; f != nil && !s.Failed() && w.cur != nil && f.N >= w.cur.base && w.cur.op.Done == doneBefore && w.callerLive() {
+	if f := w.lastFail; f != nil && !s.Failed() && w.cur != nil && f.N >= w.cur.base && w.cur.op.Done == doneBefore && (w.callerLive() || (doneBefore && w.cur.released)) {
 		others := 0
 		for _, p := range w.fanout() {
 			r := p.Data.(*simnet.RPC)
@@ -608,6 +647,68 @@ func (w *c06World) checkInflight() {
 	}
 }
 
+// checkAtReturn, at the quiescent point right after an operation returned.
+// It looks at the PUT_VALUE / ADD_PROVIDER requests of the operation that are
+// at the sender and were handed over at this very virtual instant, so that no
+// time-out of whatever length can have run out since: none of them may have a
+// cancelled context. It makes no difference whether a request was cancelled
+// while in flight or reached the sender with a context that was already done
+// (for work started right before the return that is the Go scheduler's
+// choice): neither can be delivered.
+//
+// <searchPfx>-put-cancelled (value searches, judged whether or not the caller
+// released its context): "after a completed value search the peers among the
+// closest that did not return the best value are sent it". The corrective puts
+// are started when the search completes; one that is cancelled the instant it
+// is started is not sent. The search was not cancelled while it ran, and a
+// caller that releases its context once it has the result does not un-complete
+// the search.
+//
+// <prefix>-aborted-by-caller-release (other operations, judged only when the
+// caller cancelled its context the moment the call returned): "sends every peer
+// returned by the lookup one ADD_PROVIDER ... with and without optimistic
+// provide". The operation has returned and was not cancelled while it ran; the
+// requests it left in flight are not the caller's to take back by releasing a
+// context it no longer needs.
+func (w *c06World) checkAtReturn(ob *c06OpObs) {
+	s, u := w.s, w.h.U
+	if s.Failed() || ob == nil || ob.op == nil || !ob.op.Done || (!ob.released && ob.searchPfx == "") {
+		return
+	}
+	if ob.released {
+		s.Count("probe_caller_released_ctx")
+	}
+	now := s.Now()
+	var judged, bad []*simnet.RPC
+	for _, p := range s.ParkedKind("rpc") {
+		r, ok := p.Data.(*simnet.RPC)
+		if !ok || r.N < ob.base || r.SentAt != now {
+			continue
+		}
+		if t := r.Req.GetType(); t != pb.Message_PUT_VALUE && t != pb.Message_ADD_PROVIDER {
+			continue
+		}
+		judged = append(judged, r)
+		if p.Cancelled() {
+			bad = append(bad, r)
+		}
+	}
+	if len(judged) > 0 {
+		s.Count("probe_at_return_requests_judged")
+	}
+	if len(bad) == 0 {
+		return
+	}
+	sort.SliceStable(bad, func(i, j int) bool { return u.Name(bad[i].To) < u.Name(bad[j].To) })
+	if ob.searchPfx != "" {
+		s.Violate(ob.searchPfx+"-put-cancelled", "%s returned (err=%v; caller released its context on return: %v); at that very instant the corrective %s for %s (and %d more of the %d requests handed to the sender at this instant) has a cancelled context: it cannot be delivered although no time has passed since it was started and the search itself was never cancelled",
+			ob.name, ob.op.Err, ob.released, bad[0].Req.GetType(), u.Name(bad[0].To), len(bad)-1, len(judged))
+		return
+	}
+	s.Violate(w.prefix+"-aborted-by-caller-release", "%s returned (err=%v) and its caller released its context; at that very instant the %s for %s (and %d more of the %d requests handed to the sender at this instant) has a cancelled context: it cannot be delivered although no time has passed and the operation itself was never cancelled",
+		ob.name, ob.op.Err, bad[0].Req.GetType(), u.Name(bad[0].To), len(bad)-1, len(judged))
+}
+
 // runOp starts f (with a context carrying a fresh lookup-event registration)
 // on a client goroutine and schedules until finished() holds (default: f
 // returned). It returns nil when the step budget ran out.
@@ -615,11 +716,15 @@ func (w *c06World) checkInflight() {
 // The registration context is separate from the operation's context and is
 // never cancelled while events can still be published: an event channel whose
 // context is done drops events through a select the Go runtime resolves at
-// random (HARNESS pitfall 3). Both stay live until endOp.
+// random (HARNESS pitfall 3). Both stay live until endOp - unless w.release is
+// set: then the client goroutine cancels the operation's context (never the
+// registration context) right after f returned, like a caller's
+// `defer cancel()`.
 func (w *c06World) runOp(name, lookupKey string, deadline time.Duration, f func(ctx context.Context) (any, error), finished func(*c06OpObs) bool) *c06OpObs {
 	s, h := w.s, w.h
 	w.endOp()
-	ob := &c06OpObs{name: name, lookupKey: lookupKey, base: len(h.Snd.Snapshot()), getBase: len(w.getReplies), startAt: s.Now(), deadline: deadline}
+	ob := &c06OpObs{name: name, lookupKey: lookupKey, base: len(h.Snd.Snapshot()), getBase: len(w.getReplies), startAt: s.Now(), deadline: deadline, released: w.release, searchPfx: w.searchPfx}
+	w.release, w.searchPfx = false, ""
 	w.opStart = ob.startAt
 	w.mu.Lock()
 	ob.arrBase = len(w.arrivals)
@@ -630,6 +735,8 @@ func (w *c06World) runOp(name, lookupKey string, deadline time.Duration, f func(
 	opCtx, opCancel := regCtx, context.CancelFunc(func() {})
 	if deadline > 0 {
 		opCtx, opCancel = context.WithTimeout(regCtx, deadline)
+	} else if ob.released {
+		opCtx, opCancel = context.WithCancel(regCtx)
 	}
 	drain := func() {
 		for {
@@ -661,8 +768,14 @@ func (w *c06World) runOp(name, lookupKey string, deadline time.Duration, f func(
 		s.Quiesce()
 	}
 
-	s.Tracef("op %s", name)
-	ob.op = h.Ops.Go(s, name, func() (any, error) { return f(opCtx) })
+	s.Tracef("op %s release=%v", name, ob.released)
+	ob.op = h.Ops.Go(s, name, func() (any, error) {
+		v, err := f(opCtx)
+		if ob.released {
+			opCancel() // the caller is done with the operation
+		}
+		return v, err
+	})
 	w.cur = ob
 	s.Quiesce()
 	fin := func() bool {
@@ -724,6 +837,7 @@ func (w *c06World) runOp(name, lookupKey string, deadline time.Duration, f func(
 		s.Violate("panic", "%s panicked: %s", name, firstLine(ob.op.Panic))
 	}
 	s.Tracef("done %s err=%v", name, ob.op.Err)
+	w.checkAtReturn(ob)
 	return ob
 }
 
@@ -855,6 +969,12 @@ func (w *c06World) recipientProbes(msgs []*simnet.RPC) {
 // was not sent (a real sender refuses it at once): a wanted peer that only got
 // such requests is reported under <prefix>-recipient-dead-ctx.
 func (w *c06World) checkRecipients(prefix, what string, msgs []*simnet.RPC, want []peer.ID, superset, once bool) {
+	w.checkRecipientsCtx(prefix, what, msgs, want, superset, once, true)
+}
+
+// checkRecipientsCtx: judgeCtx=false skips <prefix>-recipient-dead-ctx (the
+// caller judges the requests' contexts by other means).
+func (w *c06World) checkRecipientsCtx(prefix, what string, msgs []*simnet.RPC, want []peer.ID, superset, once, judgeCtx bool) {
 	s, u := w.s, w.h.U
 	n, live := map[peer.ID]int{}, map[peer.ID]int{}
 	var got []peer.ID
@@ -873,7 +993,7 @@ func (w *c06World) checkRecipients(prefix, what string, msgs []*simnet.RPC, want
 			s.Violate(prefix+"-recipient-missing", "%s: expected recipients {%s} but %s was sent nothing (recipients {%s})", what, sortedNames(u, want), u.Name(p), sortedNames(u, got))
 			return
 		}
-		if live[p] == 0 {
+		if judgeCtx && live[p] == 0 {
 			s.Violate(prefix+"-recipient-dead-ctx", "%s: the request for %s (one of the expected recipients {%s}) was handed to the message sender with a context that was already done, %v after the operation started", what, u.Name(p), sortedNames(u, want), w.sinceOpStart(msgs, p))
 			return
 		}
@@ -1266,6 +1386,11 @@ func runC06Provide(s *sim.Sim, optimistic, slowLookup bool) {
 		if optimistic {
 			_, e := w.h.DHT.NetworkSize()
 			estReady = e == nil
+			if !slowLookup {
+				// an optimistic provide returns with requests in flight: in some
+				// runs its caller releases its context as soon as it returned
+				w.release = s.Chance("caller-release", 1, 3)
+			}
 		}
 		ob := w.runOp(fmt.Sprintf("Provide#%d", i), string(sum), deadline, func(ctx context.Context) (any, error) {
 			return nil, w.h.DHT.Provide(ctx, key, true)
@@ -1469,30 +1594,9 @@ func runC06Corrective(s *sim.Sim) {
 	defer s.Finish()
 	defer w.h.closeAndCensus()
 	defer w.endOp()
-	u := w.h.U
 
 	key := fmt.Sprintf("key-%d", s.Draw("key", 1<<16))
-	// what the scripted peers hold: nothing, a value of rank 1..3, a second
-	// value of the top rank with different bytes, an invalid value, or a record
-	// filed under another key
-	rng := newSubRng(s, "holdings")
-	holdPct := []int{50, 90, 15}[s.Draw("hold-pct", 3)]
-	for _, p := range u.Peers {
-		if rng.Intn(100) >= holdPct {
-			continue
-		}
-		switch x := rng.Intn(20); {
-		case x == 0:
-			w.holds[p.ID] = []byte("garbage")
-		case x == 1:
-			w.holds[p.ID] = rankValue(3, time.Time{}, key)
-			w.wrongKey[p.ID] = true
-		case x == 2:
-			w.holds[p.ID] = rankValue(3, time.Unix(77, 0), key) // top rank, other bytes
-		default:
-			w.holds[p.ID] = rankValue(1+rng.Intn(3), time.Time{}, key)
-		}
-	}
+	w.drawHoldings(newSubRng(s, "holdings"), []int{50, 90, 15}[s.Draw("hold-pct", 3)], key)
 	// optionally a local record (stored through the public API, not under test here)
 	if s.Chance("local-record", 1, 3) {
 		lv := rankValue(1+s.Draw("local-rank", 3), time.Time{}, key)
@@ -1515,26 +1619,110 @@ func runC06Corrective(s *sim.Sim) {
 		s.Count("probe_quorum_not_reached")
 	}
 
-	local, hasLocal := w.localRecord(key)
-	var emitted [][]byte
-	closed := false
-	ob := w.runOp("SearchValue", key, 0, func(ctx context.Context) (any, error) {
+	sr := w.runSearch(w.h.DHT, "cp", "", key, quorum)
+	if sr == nil {
+		return
+	}
+	carriers, completed := w.searchValues(sr)
+	if !completed {
+		return
+	}
+	R, v, ok := w.lookupResult(sr.ob)
+	if !ok {
+		return
+	}
+	expect, holderInR, judged := w.judgeCorrective("cp", "probe_", sr, carriers, R, true)
+	if !judged {
+		return
+	}
+	w.lookupProbes(R, v)
+	s.NonTrivial = s.NonTrivial || (len(expect) > 0 && holderInR)
+	s.State("corrective R=%d expect=%d best=%q reason=%s emitted=%d", len(R), len(expect), sr.emitted[len(sr.emitted)-1], v.reason, len(sr.emitted))
+}
+
+// drawHoldings draws what the scripted peers hold for key: nothing, a value of
+// rank 1..3, a second value of the top rank with different bytes, an invalid
+// value, or a record filed under another key.
+func (w *c06World) drawHoldings(rng *subRng, holdPct int, key string) {
+	for _, p := range w.h.U.Peers {
+		if rng.Intn(100) >= holdPct {
+			continue
+		}
+		switch x := rng.Intn(20); {
+		case x == 0:
+			w.holds[p.ID] = []byte("garbage")
+		case x == 1:
+			w.holds[p.ID] = rankValue(3, time.Time{}, key)
+			w.wrongKey[p.ID] = true
+		case x == 2:
+			w.holds[p.ID] = rankValue(3, time.Unix(77, 0), key) // top rank, other bytes
+		default:
+			w.holds[p.ID] = rankValue(1+rng.Intn(3), time.Time{}, key)
+		}
+	}
+}
+
+// c06Search is one value search that ran under the scheduler.
+type c06Search struct {
+	ob       *c06OpObs
+	key      string
+	quorum   int
+	emitted  [][]byte // the values the caller received, in order (GetValue: the one it returned)
+	closed   bool     // the caller saw the end of the search
+	local    []byte   // the local record when the search started
+	hasLocal bool
+}
+
+// runSearch runs one value search on vs (the standard client or fullrt) under
+// the scheduler and answers what is in flight afterwards. The caller is drawn:
+// it consumes the search through SearchValue's channel or through GetValue, and
+// it either keeps its context alive or releases it as soon as it has the result
+// (`defer cancel()`). pfx is the rule-id prefix of the search clauses. Returns
+// nil when the run is over (violation, step budget).
+func (w *c06World) runSearch(vs routing.ValueStore, pfx, namePfx, key string, quorum int) *c06Search {
+	s := w.s
+	viaGet := s.Chance("via-getvalue", 1, 3)
+	w.release = s.Chance("caller-release", 1, 2)
+	w.searchPfx = pfx
+	opName := namePfx + "SearchValue"
+	if viaGet {
+		opName = namePfx + "GetValue"
+		s.Count("probe_search_via_getvalue")
+	}
+	sr := &c06Search{key: key, quorum: quorum}
+	sr.local, sr.hasLocal = w.localRecord(key)
+	sr.ob = w.runOp(opName, key, 0, func(ctx context.Context) (any, error) {
 		var ropts []routing.Option
 		if quorum > 0 {
 			ropts = append(ropts, dht.Quorum(quorum))
 		}
-		ch, err := w.h.DHT.SearchValue(ctx, key, ropts...)
+		if viaGet {
+			// GetValue reports the last (best) value of the same search; "no
+			// value" is ErrNotFound
+			v, err := vs.GetValue(ctx, key, ropts...)
+			if err == routing.ErrNotFound {
+				sr.closed = true
+				return nil, nil
+			}
+			if err != nil {
+				return nil, err
+			}
+			sr.emitted = append(sr.emitted, v)
+			sr.closed = true
+			return nil, nil
+		}
+		ch, err := vs.SearchValue(ctx, key, ropts...)
 		if err != nil {
 			return nil, err
 		}
 		for v := range ch {
-			emitted = append(emitted, v)
+			sr.emitted = append(sr.emitted, v)
 		}
-		closed = true
+		sr.closed = true
 		return nil, nil
 	}, nil)
-	if ob == nil || s.Failed() {
-		return
+	if sr.ob == nil || s.Failed() {
+		return nil
 	}
 	// the corrective puts are asynchronous: answer them (and anything else in
 	// flight) before judging, so that "return on first error" shapes show
@@ -1543,71 +1731,83 @@ func runC06Corrective(s *sim.Sim) {
 		if s.Steps > s.MaxSteps {
 			s.Count("step_budget_exhausted")
 		}
-		return
+		return nil
 	}
-	w.checkCorrective(ob, key, quorum, emitted, closed, local, hasLocal)
+	return sr
 }
 
-func (w *c06World) checkCorrective(ob *c06OpObs, key string, quorum int, emitted [][]byte, closed bool, local []byte, hasLocal bool) {
-	s, u := w.s, w.h.U
-	if ob.op.Err != nil || !closed {
+// searchValues lists the values that entered the search: the local record (if
+// valid) and every valid record in a delivered GET_VALUE reply for the key
+// (value -> peers whose reply carried it). completed=false: the search failed
+// or was (or may have been) ended by its quorum - the clause does not apply.
+func (w *c06World) searchValues(sr *c06Search) (carriers map[string][]peer.ID, completed bool) {
+	s := w.s
+	if sr.ob.op.Err != nil || !sr.closed {
 		s.Count("probe_search_failed")
-		return
+		return nil, false
 	}
-	msgs := w.sent(ob, pb.Message_PUT_VALUE)
 	val := rankValidator{}
-
-	// values that entered the search: the local record (if valid) and every
-	// valid record in a delivered GET_VALUE reply for the key
 	nvalid := 0
-	if hasLocal && val.Validate(key, local) == nil {
+	if sr.hasLocal && val.Validate(sr.key, sr.local) == nil {
 		nvalid++
 		s.Count("probe_local_value_in_search")
 	}
-	carriers := map[string][]peer.ID{}
-	for _, gr := range w.getReplies[ob.getBase:] {
-		if gr.Key != key || gr.Value == nil {
+	carriers = map[string][]peer.ID{}
+	for _, gr := range w.getReplies[sr.ob.getBase:] {
+		if gr.Key != sr.key || gr.Value == nil {
 			continue
 		}
-		if val.Validate(key, gr.Value) != nil {
+		if val.Validate(sr.key, gr.Value) != nil {
 			s.Count("fault_invalid_record")
 			continue
 		}
 		nvalid++
 		carriers[string(gr.Value)] = append(carriers[string(gr.Value)], gr.From)
 	}
-	if quorum > 0 && nvalid > quorum {
+	if sr.quorum > 0 && nvalid > sr.quorum {
 		// the search was (or may have been) ended by the quorum: not "completed"
 		// (not generated, see runC06Corrective)
 		s.Count("c06_quorum_abort")
-		return
+		return nil, false
 	}
-	R, v, ok := w.lookupResult(ob)
-	if !ok {
-		return
+	return carriers, true
+}
+
+// judgeCorrective checks the corrective puts of a completed value search
+// against R, the closest peers the search found:
+//
+//	<pfx>-without-value     no value found, yet a PUT_VALUE was sent
+//	<pfx>-content           every corrective PUT_VALUE carries the key and the best value
+//	<pfx>-sent-to-holder    a peer whose processed reply carried the best value is not sent it
+//	<pfx>-recipient-missing / -extra (/ -dead-ctx when judgeCtx): the recipients
+//	                        are exactly the peers of R that did not return the best value
+//
+// judgeCtx=false leaves "was the context live when the request reached the
+// sender" to <pfx>-put-cancelled (checkAtReturn), which does not depend on the
+// order in which the Go scheduler runs the caller and the put goroutines.
+func (w *c06World) judgeCorrective(pfx, probePfx string, sr *c06Search, carriers map[string][]peer.ID, R []peer.ID, judgeCtx bool) (expect []peer.ID, holderInR, judged bool) {
+	s, u, key := w.s, w.h.U, sr.key
+	msgs := w.sent(sr.ob, pb.Message_PUT_VALUE)
+	s.Count(probePfx + "search_completed")
+	if len(sr.emitted) > 1 {
+		s.Count(probePfx + "best_changed")
 	}
-	s.Count("probe_search_completed")
-	if len(emitted) > 1 {
-		s.Count("probe_best_changed")
-	}
-	if len(emitted) == 0 {
-		s.Count("probe_search_no_value")
+	if len(sr.emitted) == 0 {
+		s.Count(probePfx + "search_no_value")
 		if len(msgs) > 0 {
-			s.Violate("cp-without-value", "the search found no value, yet PUT_VALUE was sent to %s", u.Name(msgs[0].To))
+			s.Violate(pfx+"-without-value", "the search found no value, yet PUT_VALUE was sent to %s", u.Name(msgs[0].To))
 		}
-		return
+		return nil, false, false
 	}
-	best := emitted[len(emitted)-1]
+	best := sr.emitted[len(sr.emitted)-1]
 	for _, r := range msgs {
 		rec := r.Req.GetRecord()
 		if string(r.Req.GetKey()) != key || rec == nil || string(rec.GetKey()) != key || !bytes.Equal(rec.GetValue(), best) {
-			s.Violate("cp-content", "corrective PUT_VALUE to %s carries %q=%q, the best value of the search is %q", u.Name(r.To), rec.GetKey(), rec.GetValue(), best)
-			return
+			s.Violate(pfx+"-content", "corrective PUT_VALUE to %s carries %q=%q, the best value of the search is %q", u.Name(r.To), rec.GetKey(), rec.GetValue(), best)
+			return nil, false, false
 		}
 	}
 	withBest := idSet(carriers[string(best)])
-	var expect []peer.ID
-	holderInR := false
 	for _, p := range R {
 		if withBest[p] {
 			holderInR = true
@@ -1616,22 +1816,23 @@ func (w *c06World) checkCorrective(ob *c06OpObs, key string, quorum int, emitted
 		expect = append(expect, p)
 	}
 	if holderInR {
-		s.Count("probe_holder_of_best_in_R")
+		s.Count(probePfx + "holder_of_best_in_R")
 	}
 	for _, r := range msgs {
 		if withBest[r.To] {
-			s.Violate("cp-sent-to-holder", "corrective PUT_VALUE sent to %s, whose processed reply already carried the best value", u.Name(r.To))
-			return
+			s.Violate(pfx+"-sent-to-holder", "corrective PUT_VALUE sent to %s, whose processed reply already carried the best value", u.Name(r.To))
+			return nil, false, false
 		}
 	}
-	w.checkRecipients("cp", "corrective put", msgs, expect, false, false)
+	w.checkRecipientsCtx(pfx, "corrective put", msgs, expect, false, false, judgeCtx)
+	if s.Failed() {
+		return nil, false, false
+	}
 	if len(expect) > 0 {
-		s.Count("probe_corrective_put_sent")
+		s.Count(probePfx + "corrective_put_sent")
 	} else {
-		s.Count("probe_corrective_none_needed")
+		s.Count(probePfx + "corrective_none_needed")
 	}
 	w.recipientProbes(msgs)
-	w.lookupProbes(R, v)
-	s.NonTrivial = s.NonTrivial || (len(expect) > 0 && holderInR)
-	s.State("corrective R=%d expect=%d best=%q reason=%s emitted=%d", len(R), len(expect), best, v.reason, len(emitted))
+	return expect, holderInR, true
 }
